@@ -840,3 +840,38 @@ for _n, _op in (('gt', '>'), ('lt', '<'), ('ge', '>='), ('le', '<=')):
 for _n, _op in (('eq', '=='), ('ne', '!=')):
     H['std::cmp::PartialEq::' + _n] = _cmp_handler(_op)
     H['core::cmp::PartialEq::' + _n] = _cmp_handler(_op)
+
+
+# --- the `?` operator on Option -------------------------------------------------------------------------------
+@reg('<std::option::Option<T> as std::ops::Try>::branch')
+def _opt_branch(ip, st, t, a, rt):
+    o = deref(a[0])
+    k, p = opt_parts(o)
+    CF = 'std::ops::ControlFlow'
+    if k == 'some':
+        return I.St(CF, 'Continue', {0: p})
+    if k == 'none':
+        return I.St(CF, 'Break', {0: I.NONE})
+    if k == 'sym' and isinstance(p, I.Sym):
+        return I.ite(opt_is_some(o), I.St(CF, 'Continue', {0: opt_payload(o, '?')}), I.St(CF, 'Break', {0: I.NONE}))
+    return NotImplemented
+
+
+@regx(r'^<std::option::Option<T> as std::ops::FromResidual<std::option::Option<std::convert::Infallible>>>::from_residual$')
+def _opt_from_residual(ip, st, t, a, rt):
+    return I.NONE
+
+
+# --- malachite fused multiply-accumulate (exact ring operations) -------------------------------------------------
+@regx(r'^(?=.*malachite).*AddMulAssign.*::add_mul_assign$')
+def _add_mul_assign(ip, st, t, a, rt):
+    ref = a[0]
+    I.write_lv(ref.lv, as_rf(deref(ref)) + as_rf(deref(a[1])) * as_rf(deref(a[2])))
+    return I.tup()
+
+
+@regx(r'^(?=.*malachite).*SubMulAssign.*::sub_mul_assign$')
+def _sub_mul_assign(ip, st, t, a, rt):
+    ref = a[0]
+    I.write_lv(ref.lv, as_rf(deref(ref)) - as_rf(deref(a[1])) * as_rf(deref(a[2])))
+    return I.tup()
